@@ -425,6 +425,30 @@ def c07(tier, rng, rep, only=None):
             elif c.impl != c.model:
                 rep.violation("model and implementation differ on %s(%s): impl %s, model %s" % (c.op, c.arg, c.impl, c.model),
                               case_payload(c, g), no_input=True)
+    # the generated error enum as it is DEFINED (expansion): exactly the declared variants, plain unit variants,
+    # matchable exhaustively from any crate
+    n_enum = 0
+    if only is None:
+        recs = flows.expand_inventory(runs[0].ws)
+        for d in runs[0].decls:
+            if d.id not in runs[0].live:
+                continue
+            info = runner.DeclInfo(d)
+            if not info.has_validation or info.custom:
+                continue
+            want = sorted(runner.VARIANTS[k_] for k_ in info.vkinds)
+            enums = [r for r in recs.get(d.id, []) if r[0] == "enum" and r[1] == d.name + "Error"]
+            payload = {"kind": "inventory", "decl": d.to_json(), "decl_rust": runner.decl_module(d, None).split("pub fn run")[0], "records": enums}
+            if len(enums) != 1:
+                rep.violation("the expansion of %s defines %d enums named %sError" % (d.id, len(enums), d.name), payload, no_input=True)
+                continue
+            n_enum += 1
+            kv = dict(x.split("=", 1) for x in enums[0][2:])
+            if sorted(v_ for v_ in kv.get("variants", "").split(",") if v_) != want:
+                rep.violation("error enum of %s has the variants [%s]; the declared validators are %s" % (d.id, kv.get("variants"), want), payload)
+            if kv.get("non_exhaustive") != "0":
+                rep.violation("error enum of %s is #[non_exhaustive]: a wildcard-free match over exactly the declared variants is refused in every other crate" % d.id, payload)
+        rep.coverage["error_enum_definitions_checked"] = n_enum
     if only is None:
         mixed_rules_must_be_refused(rep, rng, tier, "the written built-in validators have no error variant and are never reported")
     rep.coverage.update({
@@ -2133,6 +2157,11 @@ def nostd_extra_modules():
         ("#[nutype(validate(predicate = |v| !v.0.is_empty()), derive(Debug, Clone, PartialEq, AsRef, Deref, TryFrom))]", "pub struct P<'a, T: Clone>((alloc::borrow::Cow<'a, str>, T));"),
         ("#[nutype(sanitize(with = |mut v: alloc::collections::BTreeMap<K, V>| { v.retain(|_, x| *x != V::default()); v }), derive(Debug, Clone, PartialEq, AsRef, Deref, From, IntoIterator))]",
          "pub struct P<K: Ord, V: Default + PartialEq>(alloc::collections::BTreeMap<K, V>);"),
+        # other-type newtypes whose inner type is merely NAMED like the string family
+        ("#[nutype(validate(predicate = |s| s.0[0] != 0), derive(Debug, Clone, PartialEq, AsRef, Deref, TryFrom))]",
+         "pub struct P(InlineString);\n    #[derive(Debug, Clone, PartialEq)] pub struct InlineString(pub [u8; 8]);"),
+        ("#[nutype(sanitize(with = |s: alloc::string::String| s), derive(Debug, Clone, PartialEq, AsRef, Deref, From))]", "pub struct P(alloc::string::String);"),
+        ("#[nutype(derive(Debug, Clone, Copy, PartialEq, AsRef))]", "pub struct P<'a>(&'a FixedString);\n    #[derive(Debug, PartialEq)] pub struct FixedString(pub [u8; 4]);"),
     ]
     out = []
     for i, (attr_, item) in enumerate(decls):
